@@ -6,6 +6,8 @@ import CoapVerif.Model.QBlock
 -- DRIVER-OPS: q408 => Coap.Driver.QBlock.q408Line
 -- DRIVER-OPS: qenc => Coap.Driver.QBlock.qencLine
 -- DRIVER-OPS: qset => Coap.Driver.QBlock.qsetLine
+-- DRIVER-OPS: qreq => Coap.Driver.QBlock.qreqLine
+-- DRIVER-OPS: qsend => Coap.Driver.QBlock.qsendLine
 namespace Coap.Driver.QBlock
 open Coap Coap.Block Coap.QBlock Coap.Driver.Block
 
@@ -84,6 +86,37 @@ def qsetLine (args : List String) : String :=
       let gs := if gaps.isEmpty then "-" else String.intercalate "," (gaps.map toString)
       s!"M ranges={showRanges rs} all={bit (allInForPayloadSet maxPay rs proc)} next={bit (anyNextPayloadSet maxPay rs proc)} gaps={gs}"
     | _, _, _ => "bad-op"
+  | _ => "bad-op"
+
+/-- `qreq <maxPayloads> <useM> <szx> <totalLen> <n,n,…>`: one `coap_request_missing_q_block2` -/
+def qreqLine (args : List String) : String :=
+  match args with
+  | [a, b, c, d, seq] =>
+    match nat? a, nat? b, nat? c, nat? d, splitNats seq ',' with
+    | some maxPay, some useM, some szx, some total, some ns =>
+      if maxPay < 1 ∨ maxPay > 65535 ∨ szx > 6 ∨ total ≥ 2 ^ 31 ∨ ns.any (fun n => n ≥ 2 ^ 20) then "bad-op" else
+      let cap := Coap.Generated.rblockCnt
+      let rs := ns.foldl (fun (acc : Ranges) n => (updateReceived cap acc n).2) []
+      let out := reqMissingQ2 maxPay (useM != 0) rs szx total
+      let rq := if out.1.isEmpty then "-" else String.intercalate "," (out.1.map (fun q => s!"{q.1}.{q.2}"))
+      let pps := match out.2 with | some s => toString s | none => "-"
+      s!"M ranges={showRanges rs} req={rq} pps={pps}"
+    | _, _, _, _, _ => "bad-op"
+  | _ => "bad-op"
+
+/-- `qsend <maxPayloads> <szx> <bodyLen> <num> <m>`: the first burst, then `coap_send_q_blocks` from block `num` -/
+def qsendLine (args : List String) : String :=
+  match args with
+  | [a, b, c, d, e] =>
+    match nat? a, nat? b, nat? c, nat? d, nat? e with
+    | some maxPay, some szx, some bodyLen, some num, some m =>
+      if szx > 6 ∨ bodyLen ≤ 2 ^ (szx + 4) ∨ bodyLen > 70000 ∨ maxPay < 1 ∨ maxPay > 255 ∨ num ≥ 2 ^ 20 ∨ m > 1 then "bad-op" else
+      let chunk := 2 ^ (szx + 4)
+      let sh (l : List (Nat × Nat)) : String :=
+        if l.isEmpty then "-" else String.intercalate "+" (l.map (fun x => s!"{x.1}.{x.2}:{min chunk (bodyLen - x.1 * chunk)}"))
+      let first := (0, moreBit bodyLen 0 szx) :: sendQNon maxPay bodyLen szx 0 (moreBit bodyLen 0 szx == 1)
+      s!"M first={sh first} next={sh (sendQNon maxPay bodyLen szx num (m == 1))} rel=1"
+    | _, _, _, _, _ => "bad-op"
   | _ => "bad-op"
 
 end Coap.Driver.QBlock
